@@ -48,6 +48,8 @@ def z3int(v):
         return z3.IntVal(1 if v else 0)
     if isinstance(v, int):
         return z3.IntVal(v)
+    if isinstance(v, z3.ArithRef) and v.is_int():
+        return v
     try:
         import numpy as np
         if isinstance(v, np.integer):
